@@ -124,6 +124,36 @@ def app_requests(rng):
     return [(n, u, t if t is not None else u) for n, u, t in out]
 
 
+def near_requests(rng):
+    """Messages next to the request languages - mostly ones the responders must refuse (other DNS types / classes,
+    reply-typed messages, unsupported commands, single-fault requests): list of (name, udp payload, tcp payload).
+    Whatever the responder does with them, it has to do the same on every port and over both IP versions."""
+    out = []
+    labels = dns.gen_labels(rng, 60)
+    for qt, qc in ((28, 1), (255, 1), (15, 1), (16, 1), (12, 1), (1, 3), (1, 255), (28, 1)):
+        qs = [dns.question(labels, qt, qc)] + ([dns.question(dns.gen_labels(rng, 40))] if rng.random() < 0.4 else [])
+        rng.shuffle(qs)
+        out.append(("dns_q%d_c%d" % (qt, qc), dns.header(rng.getrandbits(16), 0x0100, len(qs)) + b"".join(qs), None))
+    out.append(("dns_qr", dns.header(rng.getrandbits(16), 0x8180, 1, 1) + dns.question(labels) + dns.rr(labels), None))
+    tid = stun.gen_tid(rng, True)
+    for mt in (0x0011, 0x0101, 0x0002, 0x0003):
+        out.append(("stun_t%04x" % mt, stun.msg(mt, tid, stun.gen_attrs(rng, 4 * rng.randrange(0x40, 0x60))), None))
+    for prog, vers in ((100000, 1), (100000, 5), (99839, 2), (100096, 2), (100003, 3), (200000, 2)):
+        c = rpc.gen_call(rng, prog=prog, vers=vers, proc=rng.choice([0, 3, 4]), maxauth=8)
+        m = bytes([0x7A]) + c["msg"][1:]
+        out.append(("rpc_p%d_v%d" % (prog, vers), m, rpc.record(m)))
+    p = http.gen_parts(rng)
+    for f in rng.sample(http.FAULTS, 3):
+        out.append(("http_" + f, http.fault(rng, p, f), None))
+    for k in rng.sample(sshghost.SSH_FAULTS, 2):
+        out.append(("ssh_" + k, sshghost.gen_bad_banner(rng, k), None))
+    for cmd in (0x73 ^ 0x01, 0x71, 0x25, 0xA2):
+        out.append(("smb1_cmd%02x" % cmd, smb.nbss(smb.smb1_header(cmd) + smb.smb1_negotiate_body([b"NT LM 0.12"])), None))
+    for cmd in (2, 3, 5, 0x000B):
+        out.append(("smb2_cmd%d" % cmd, smb.nbss(smb.smb2_header(cmd) + smb.smb2_negotiate_body([0x0202])), None))
+    return [(n, u, t if t is not None else u) for n, u, t in out]
+
+
 def tcp_payload(rng):
     """One TCP application payload: a valid request of some protocol, a request with a single grammar fault (still
     carrying its protocol's signature), or a parser-hostile byte string."""
